@@ -51,8 +51,11 @@ def roll_mux(window, stride):
                     outer_observer.on_next(i)
                 elif isinstance(i, rs.OnCompletedMux):                    
                     kindex = i.key[0]
+                    n = i.store.get_state(state_n, (kindex, i.key))
+                    first = ((n + stride - 1) // stride) % density
                     i.store.set_state(state_n, (kindex, i.key), 0)
-                    for offset in range(density):
+                    for o in range(density):
+                        offset = (first + o) % density
                         index = i.key[0] * density + offset
                         if i.store.get_state(state_w, (index, i.key)) != -1:
                             observer.on_next(i._replace(key=(index, i.key)))
@@ -60,8 +63,11 @@ def roll_mux(window, stride):
                     outer_observer.on_next(i)
                 elif isinstance(i, rs.OnErrorMux):
                     kindex = i.key[0]
+                    n = i.store.get_state(state_n, (kindex, i.key))
+                    first = ((n + stride - 1) // stride) % density
                     i.store.set_state(state_n, (kindex, i.key), 0)
-                    for offset in range(density):
+                    for o in range(density):
+                        offset = (first + o) % density
                         index = i.key[0] * density + offset
                         if i.store.get_state(state_w, (index, i.key)) != -1:
                             observer.on_next(i._replace(key=(index, i.key)))
